@@ -16,7 +16,8 @@ CLAIMS = {
         "All histories up to depth 3-5 (per world, see evidence) over a 30-33 op timing alphabet (add x 3 protocols, delay, "
         "target, align, phase_shift, EOM and DMM ops, failing calls) on 8-10 channel configurations (incl. DMM declared first, two "
         "locals, and a fall-tail world: several idle slots of lengths around the rise time between a pulse and every consumer of "
-        "its pending fall time, depth 4) are executed on the real Sequence; tiling, clock alignment, minimum durations, prefix stability, reported durations and agreement of the three "
+        "its pending fall time, depth 4; two deep-root worlds starting from 9- and 16-call programs inside / after an EOM block; an EOM "
+        "slower than its channel) are executed on the real Sequence; tiling, clock alignment, minimum durations, prefix stability, reported durations and agreement of the three "
         "timeline views (schedule, str, sampler) are checked on every transition.",
         "Bounded depth and alphabet; Pulse.fall_time trusted for the pending-fall-time clause (decided separately by C14).",
         "DESIGN.md §3 C02",
@@ -25,8 +26,9 @@ CLAIMS = {
         "model_checking",
         "explicit-state BFS over call histories; lock-step co-simulation with a reference scheduler (RefSched) re-seeded from "
         "the implementation's pre-state on every transition, plus model-free lower-bound monitors",
-        "All histories up to depth 2-4 over 15-33 op alphabets on 9 two-channel worlds (global+local on different / same basis, "
-        "two globals on one basis, global+DMM, two locals, two fall-tail worlds with idle slots around the rise time; bandwidths "
+        "All histories up to depth 2-4 over 15-33 op alphabets on 13 two-channel worlds (global+local on different / same basis, "
+        "two globals on one basis, global+DMM, two locals, two fall-tail worlds with idle slots around the rise time, DMM first with "
+        "integer ids, two deep-root worlds, an EOM slower than its channel; bandwidths "
         "None/8/30 MHz, mixed per-channel bandwidths): every accepted add / "
         "align / delay is compared with RefSched's earliest admissible start; min-delay / wait-for-all lower bounds, the "
         "phase-shift barrier, exactness of no-delay, estimate_added_delay == inserted delay (and purity) and align's common end "
@@ -42,7 +44,8 @@ CLAIMS = {
         "All histories up to depth 3-5 over 14-21 op alphabets (shifts of 1, -0.5, 7 > 2pi, 2pi, 0 on atom subsets and bases, "
         "pulses with post-phase-shifts of either sign on global/local channels, retargets, EOM pulses) on 6 worlds (two channels "
         "on one basis, two bases, DMM configured before the first channel, two globals, and the mirror image with the local "
-        "channel starting on the other atom, 3 atoms and integer qubit ids out of register order): per transition every (basis, atom) "
+        "channel starting on the other atom, 3 atoms and integer qubit ids out of register order; EOM calls incl. a drift-corrected "
+        "change of setpoint): per transition every (basis, atom) "
         "reference must change by exactly the op's increment (mod 2pi) and no other reference may move; every new pulse carries "
         "programmed phase + reference and starts after the latest shift of its targets. Ramsey pairs (two pi/2 pulses around a "
         "shift phi) are emulated for 29 phi values x 5 channel kinds x {phase_shift, post_phase_shift}: P = cos^2(phi/2) +- 1e-4.",
@@ -58,7 +61,7 @@ CLAIMS = {
         "derived/0/42} x {bandwidth none/8/30 MHz} x {clock 1/4} x {min duration 1/16} x {retarget interval 0/220} x {fixed "
         "retarget 0/30} (144 configurations; quick covers corners plus a seed-rotated twelfth chosen as a covering design - every value of "
         "every parameter and all four (retarget interval, fixed time) combinations in each slice -, thorough all; corners "
-        "include fixed retarget time > interval and a fall-tail world): phase-jump gap >= "
+        "include fixed retarget time > interval, a fall-tail world, integer ids and an EOM slower than its channel): phase-jump gap >= "
         "phase_jump_time + fall (>= 2 x EOM rise in EOM mode) unless no-delay, retarget interval / fixed time / ramp-down / "
         "same-target no-op on every state, exact gaps pinned by RefSched.",
         "Fall times are trusted inputs (C14); in EOM mode only the weakest reading is enforced model-free. Bounded depth/alphabet.",
@@ -68,8 +71,9 @@ CLAIMS = {
         "fault_enumeration",
         "explicit-state BFS over valid call histories x exhaustive invalid-call and read-only menus at every reachable state; "
         "full-snapshot equality before/after; differential rebuild oracles",
-        "Every state reachable by <= 2-4 valid calls (16-op core incl. EOM, DMM, variables, measure; XY world separately) is "
-        "hit with each of 78 invalid calls (one per failure cause and operation: durations, limits, targets, channels, names, "
+        "Every state reachable by <= 2-4 valid calls (16-op core incl. EOM, DMM, variables, measure; XY world and a fresh sequence "
+        "whose mode is still undetermined separately) is "
+        "hit with each of 78 invalid calls (93 with the menus of the XY world and of a fresh, channel-less sequence) (one per failure cause and operation: durations, limits, targets, channels, names, "
         "modes incl. mode refusals of calls that carry a variable, protocols, over-long sequence via each op, foreign/unknown "
         "variables, calls after measure) and 14 read-only "
         "operations (str, sample +- modulation, draw with every flag, durations, phase refs, delay estimates, both serialisers, "
@@ -97,7 +101,7 @@ CLAIMS = {
         "(a refusal keeps the mode) (quick: 4000-state cap per device, reported as not exhaustive; thorough: to fixpoint). Concrete BFS to depth 3-4 on three worlds groups histories by model "
         "mode and requires identical accept vectors inside a group.",
         "Arguments are value-valid so only the mode can cause refusals; data-dependent cases are left undecided by the model "
-        "(listed in mc/typestate.py); <= 2 DMM channels per state.",
+        "(listed in mc/typestate.py); <= 2 DMM channels per state; one device uses integer qubit ids incl. the falsy 0.",
         "DESIGN.md §3 C13",
     ),
     "C15": (
@@ -123,7 +127,7 @@ CLAIMS = {
         "All states reachable within depth 3-4 over 8-15 op rendering alphabets (pulses of distinct shape / phase / detuning on "
         "every channel, retargets, multi-target local channel, EOM blocks left open, DMM with a weight map, XY with an SLM mask "
         "and two microwave channels, two globals on one basis, two locals, DMM declared first, automatic waits inside EOM blocks) "
-        "on 7 worlds: per channel array lengths, amplitude, "
+        "on 9 worlds (incl. integer / string ids out of register order and a user-built zero-amplitude hold pulse with its own phase): per channel array lengths, amplitude, "
         "detuning and phase over each pulse; per atom and basis the complex drive and weighted detuning from both "
         "to_nested_dict layouts; extension by 1 and 37 ns pads with zeros / last phase / off-detuning. Idle time inside an EOM block is "
         "rendered from the block (mode), not from the kind of slot the implementation recorded.",
@@ -135,10 +139,11 @@ CLAIMS = {
         "exploration",
         "explicit-state BFS over building histories; for every reached program the emulator's Hamiltonian is compared at every "
         "integer nanosecond with an independent dense Kronecker construction (RefHam) fed by the timeline snapshot",
-        "All programs reachable within depth 2-3 over 3-15 op alphabets on 12 worlds (two bases; global+local on one basis with a "
+        "All programs reachable within depth 2-3 over 3-15 op alphabets on 14 worlds (two bases; global+local on one basis with a "
         "permuted atom order; DMM weight map on a 3D register; XY with an SLM mask and two microwave channels; XY with tilted / "
         "in-plane magnetic field on 2D and 3D registers; two globals on one basis; DMM declared first; integer and string qubit ids whose sorted / index order differs from the "
-        "register order, in Ising, XY and DMM worlds; Rydberg levels 50/60/70/100): "
+        "register order, in Ising, XY and DMM worlds; Ising mode with an SLM mask leaving one (of two / three) atoms unmasked; Rydberg "
+        "levels 50/60/70/100): "
         "get_hamiltonian(t) == documented formula to 1e-9 and Hermitian to 1e-12 for every integer t, with the documented state "
         "ordering.",
         "Integer times only (QuTiP interpolates between samples); 2-3 atoms; C6 read from the JSON table, C3 = 3700. Known "
@@ -202,12 +207,13 @@ CLAIMS = {
     "C12": (
         "exploration",
         "exhaustive boundary grid of devices x registers / layouts with an exact rational-arithmetic oracle",
-        "3429 cases: 16 devices {dimensions} x {max atoms} x {min distance} x {max radius} x 213 registers (one pair at "
+        "3461 cases: 16 devices {dimensions} x {max atoms} x {min distance} x {max radius} x 213 registers (one pair at "
         "d-1e-3, d-5e-7, d, d+1e-3, 0, 1e-7, 2e-6 along x and along a 3-4-5 direction with the violating pair at every index "
         "position, atoms at radius R-1e-3, R, R+1e-3, counts max / max+1, 3D registers, every atom order) through "
         "validate_register and Sequence(); expected accept / refuse and the exact offending pairs / atoms from Fractions; "
         "layout-based registers for fillings {0.5,1,0.4,0.45,0.57,0.35,0.29,0.58,0.07,0.7} x trap bounds x trap and atom counts "
-        "around the limit (incl. products that are integers only in exact arithmetic); automatic layouts on a physical device "
+        "around the limit (incl. products that are integers only in exact arithmetic); the atom-number limit on registers that come from "
+        "a valid layout; automatic layouts on a physical device "
         "and max_connectivity registers must be accepted by their device; device construction (+ specs / docs rendering) for "
         "each optional parameter None / valid / boundary / invalid.",
         "Don't-care bands: distances within 1e-6 below the minimum, radii within 1e-14 relative of the maximum.",
@@ -226,7 +232,7 @@ CLAIMS = {
         "ending in a short zero / low hold and sign-changing ramps) and EOM bandwidths 20/40: the true output beyond duration + "
         "Pulse.fall_time stays below max(0.01, 0.6 % of peak). Sequences: modulated sampling succeeds whenever plain sampling "
         "does and every array ends at the channel duration including fall time, on every state of a depth 2-3 BFS (empty "
-        "channels, channels without bandwidth, open EOM blocks, DMM).",
+        "channels, channels without bandwidth, open EOM blocks, DMM, EOM slower than / as fast as its channel).",
         "Reference filter = Gaussian impulse response of the documented transfer function on a zero-padded input; bandwidths "
         "where int() truncation of the rise time loses > 3 % (37, 44, 49 ... 100 MHz) exceed the 0.6 % clause by design margin "
         "and are not in the grid (DESIGN.md Appendix B #13).",
@@ -236,14 +242,15 @@ CLAIMS = {
         "exploration",
         "exhaustive program x deviation enumeration (ProgX): skeleton programs with every subset of numeric argument positions "
         "replaced by variable expressions; template.build(values) vs direct construction compared on canonical snapshots",
-        "3.5k cases: 7 skeleton programs (all waveform classes, delays, phase shifts, EOM with drift correction, DMM, index "
+        "3.8k cases: 7 skeleton programs (all waveform classes, delays, phase shifts, EOM with drift correction, DMM, index "
         "targeting, XY; 6-12 numeric positions each) x every subset of positions turned into variable expressions (14 kinds: "
         "scalar, array item, 2v, v+1, -v, v/2, v**2, abs, sqrt, sin, floor, ceil, round, nested; whole-array variables for "
         "interpolation points), every kind at every single position and every kind pair on two positions; each template is built "
         "for assignments A, B in the orders A,B,A and B,A,A, after a failed build, and compared with the same calls issued "
         "directly on evaluated values (second pass: values handed over as caller-owned arrays edited in place); the template's "
         "full snapshot (incl. stored calls) must be unchanged by every build; every subset template is also built on a "
-        "MappableRegister resolved at build time (any prefix of the program concrete). "
+        "MappableRegister resolved at build time (any prefix of the program concrete); every ordered pair of 17 expression kinds / 5 "
+        "waveform classes over the SAME variable and constant as two arguments of one template. "
         "Mappable registers: 3 unsorted declared-id orders x every injective mapping of 1-3 ids onto 4 traps x every mapping "
         "insertion order x every index: declared order, trap positions, index-based targeting and equality with direct "
         "construction on the concrete register.",
@@ -255,11 +262,11 @@ CLAIMS = {
         "exploration",
         "exhaustive program x deviation enumeration (ProgX) through both codecs with a differential oracle on canonical "
         "snapshots and an independently compiled schema validator",
-        "768 (quick) / ~1700 (thorough) programs: 5 program families covering every building operation x argument-style "
-        "deviations (positional / keyword / omitted / explicit default; each alone and pairs) x registers {2D, 3D, from a "
-        "layout, mappable} x devices {inline virtual with EOM+DMM, MockDevice by name, custom physical} x parametrized variants "
+        "1.2k (quick) / ~2k (thorough) programs: 5 program families covering every building operation x argument-style "
+        "deviations (positional / keyword / omitted / explicit default; each alone and pairs) x registers {2D, 3D} x {plain, from a "
+        "layout, mappable} x devices {inline virtual with EOM+DMM, MockDevice by name, custom physical with / without EOM} x parametrized variants "
         "(each numeric position alone and all together as variable expressions) x qubit ids {strings, integers 0..2, integers "
-        "out of register order: decoded == the program written with str(id)}. For each: document valid under the published "
+        "out of register order: decoded == the program written with str(id)}, plus the shared-operand expression pairs of C08. For each: document valid under the published "
         "schema (own validator) , decoding succeeds, device and register equal, decoded snapshot equal (or, when parametrized / "
         "mappable, builds for two assignments equal), encode-decode-encode is a fixpoint, measurement and variables equal, and "
         "encoding leaves the original's full snapshot (incl. call log) unchanged; abstract and legacy codecs.",
@@ -271,7 +278,7 @@ CLAIMS = {
         "exhaustive program x device-pair enumeration (ProgX) with a differential snapshot oracle (strict) and the C01/C02 "
         "predicates on the new device (non-strict)",
         "161 programs (every history of <= 2 ops over a 12-op alphabet incl. EOM with drift correction, DMM, retarget, align, "
-        "phase changes; plus 4 long ones) and 10 auxiliary programs (SLM mask with default / positional / keyword DMM id before "
+        "phase changes; plus 4 long ones) and 13 auxiliary programs (the same DMM id configured twice before / after parametrization; SLM mask with default / positional / keyword DMM id before "
         "and after the first channel or pulse in Ising, XY and undetermined mode, magnetic field, measurement, variables) x 77 "
         "ordered device pairs (base <-> 26 single-parameter variants incl. a renamed identical device, to which every switch must "
         "succeed and change nothing; of clock, min "
@@ -281,7 +288,7 @@ CLAIMS = {
         "raises or returns an identical timeline / EOM blocks / phase references; non-strict either raises or satisfies every "
         "limit of the new device with a well-formed timeline; the original is never modified; switch_register to an equal, a "
         "moved and a re-ordered register keeps the timeline; to a MappableRegister with the same ids it is refused or keeps every "
-        "stored instruction and builds to the original timeline.",
+        "stored instruction and builds to the original timeline; parametrized programs are compared after building both sides.",
         "Consecutive plain delays are merged and derived DMM channel names normalised before comparing strict switches. Known "
         "findings: strict ignores min_duration and the SLM-mask DMM's bottom detuning.",
         "DESIGN.md §3 C18",
@@ -305,16 +312,16 @@ CLAIMS = {
         "exploration",
         "exhaustive sweeps on the real emulators: every integer duration, programs x noise x evaluation-time settings, every "
         "basis-state tuple, and every tape of numpy.random answers (owned RNG)",
-        "65k cases (quick): every duration 4..1500 ns (thorough 12000) of a resonant pulse - legacy norm, analytic Rabi "
-        "population, V2 backend returns and stores the same final state; 8 programs x 7 noise configurations x 4 evaluation-time "
+        "67k cases (quick): every duration 4..1500 ns (thorough 12000) of a resonant pulse - legacy norm, analytic Rabi "
+        "population, V2 backend returns and stores the same final state; 10 programs (incl. an idle period before a short pulse) x 7 noise configurations x 4 evaluation-time "
         "settings x sampling rates {1, 0.5, (0.1)} - every stored state normalised / unit-trace / Hermitian / positive, times "
         "ascending, V2 == legacy at equal times, zero drive keeps the state; every basis-state tuple of 1-4 atoms in each of 8 "
         "eigenbases x measurement bases as ket and density matrix -> documented bitstring through the legacy result object "
-        "and the V2 state; every tape of RNG answers (interval interiors, both end points, rate-/rate/rate+) for 1-2 shots on 4 "
+        "and the V2 state, and uniform / weighted superpositions and mixtures over all basis states -> documented distribution; every tape of RNG answers (interval interiors, both end points, rate-/rate/rate+) for 1-2 shots on 4 "
         "distributions x 4 detection-error settings against a reference function of the tape (V2 state and legacy results "
         "object); state-preparation errors: every pattern of badly prepared atoms over 2-3 runs; the legacy emulator as a "
         "stateful object: every history of <= 3 (thorough 4) configuration calls (set_initial_state x 3, set_config x 3, "
-        "add_config x 3, reset_config, set_evaluation_times x 3) on one emulator vs a fresh emulator configured with the net "
+        "add_config x 3, reset_config, set_evaluation_times x 3, run, observers) on one emulator vs a fresh emulator configured with the net "
         "settings of a reference model (3.8k histories).",
         "Solver tolerances as listed in the evidence; Rabi value required within the range spanned by effective durations "
         "[T-1, T]; large-shot statistics are not decided.",
@@ -326,8 +333,8 @@ CLAIMS = {
         "definitions; end-to-end V2 runs over evaluation-time configurations; BitStrings under enumerated RNG tapes",
         "22.5k cases (quick): a 9-member state family (basis states, uniform, signed/complex, entangled, 1/4-3/4 mixture, "
         "maximally mixed, diagonal) as ket and density matrix x 6 eigenstate sets (2, 3, 4 levels) x 1-3 qudits x 3 "
-        "Hamiltonians: Occupation, CorrelationMatrix, Energy, EnergySecondMoment, EnergyVariance, Fidelity against every pure "
-        "member, Expectation of a non-Hermitian operator, operator +, scalar*, @ and apply_to == matrix algebra; 6 "
+        "Hamiltonians: Occupation, CorrelationMatrix, Energy, EnergySecondMoment, EnergyVariance, Fidelity / overlap against every "
+        "member given as ket and as density matrix (incl. a mixture with complex off-diagonal elements), Expectation of a non-Hermitian operator, operator +, scalar*, @ and apply_to == matrix algebra; 6 "
         "operator-representation shapes and 4 amplitude sets per (levels, qudits) == explicit Kronecker products, probabilities "
         "and basis-state indexing; end-to-end runs over per-observable time lists (unsorted, near-duplicate) x default times x "
         "noise: ascending unique times, retrieval by observable and tag, stored values == definitions on the stored state and "
